@@ -10,7 +10,10 @@ import (
 	"testing"
 	"time"
 
+	"testing/synctest"
+
 	"github.com/ipfs/go-cid"
+	"go.uber.org/zap"
 
 	"berty.tech/weshnet/v2/internal/verifsim/kernel"
 	"berty.tech/weshnet/v2/internal/verifsim/sched"
@@ -23,7 +26,39 @@ import (
 // second replica receives them entry by entry, in one batch, or mixed (simulator-chosen plan);
 // then EVERY (since, until, reverse) combination over the entries plus an unknown identifier is
 // listed on both replicas through MetadataStore.ListEvents / MessageStore.ListEvents and compared
-// with the slice of the causal order.
+// with the slice of the causal order. The same ranges are then requested through the service's
+// GroupMetadataList / GroupMessageList streams (real methods on a service value holding the open group,
+// fake server stream) with until_now and with an until identifier.
+
+type c13metaStream struct {
+	*c19stream
+	got []string
+}
+
+func (s *c13metaStream) Send(e *protocoltypes.GroupMetadataEvent) error {
+	c, err := cid.Cast(e.EventContext.Id)
+	if err != nil {
+		s.got = append(s.got, "?")
+		return nil
+	}
+	s.got = append(s.got, c.String())
+	return nil
+}
+
+type c13msgStream struct {
+	*c19stream
+	got []string
+}
+
+func (s *c13msgStream) Send(e *protocoltypes.GroupMessageEvent) error {
+	c, err := cid.Cast(e.EventContext.Id)
+	if err != nil {
+		s.got = append(s.got, "?")
+		return nil
+	}
+	s.got = append(s.got, c.String())
+	return nil
+}
 
 func TestVerifC13(t *testing.T) {
 	kernel.InstallCrypto(t)
@@ -341,4 +376,59 @@ func c13run(r *kernel.Run, seed uint64) {
 		}
 	}
 	r.Probe("all_ranges_checked")
+
+	// the same listings through the service streams
+	for _, n := range s.nodes {
+		gc := n.gcs[gid]
+		svc := &service{openedGroups: map[string]*GroupContext{string(g.PublicKey): gc}, logger: zap.NewNop()}
+		rpc := func(meta bool) lister {
+			return func(since, until []byte, rev bool) ([]string, error) {
+				cctx, cancel := context.WithCancel(ctx)
+				defer cancel()
+				st := &c19stream{ctx: cctx}
+				var got *[]string
+				var call func() error
+				untilNow := until == nil
+				if meta {
+					ms := &c13metaStream{c19stream: st}
+					got = &ms.got
+					call = func() error {
+						return svc.GroupMetadataList(&protocoltypes.GroupMetadataList_Request{GroupPk: g.PublicKey, SinceId: since, UntilId: until, UntilNow: untilNow, ReverseOrder: rev}, ms)
+					}
+				} else {
+					ms := &c13msgStream{c19stream: st}
+					got = &ms.got
+					call = func() error {
+						return svc.GroupMessageList(&protocoltypes.GroupMessageList_Request{GroupPk: g.PublicKey, SinceId: since, UntilId: until, UntilNow: untilNow, ReverseOrder: rev}, ms)
+					}
+				}
+				done := make(chan error, 1)
+				go func() { done <- call() }()
+				synctest.Wait()
+				var err error
+				select {
+				case err = <-done:
+				default:
+					// with an until identifier the stream stays open after the range was sent; the client ends it
+					r.Probe("rpc_stream_left_open_after_range")
+					cancel()
+					synctest.Wait()
+					select {
+					case err = <-done:
+					default:
+						r.Violate("listing", "listing-failed", "%s: stream does not end after its context was cancelled", n.name)
+						return nil, nil
+					}
+				}
+				return *got, err
+			}
+		}
+		if !check(n.name+" metadata (GroupMetadataList stream)", metaOrder, rpc(true)) {
+			return
+		}
+		if !check(n.name+" messages (GroupMessageList stream)", msgOrder, rpc(false)) {
+			return
+		}
+	}
+	r.Probe("all_ranges_checked_through_rpc")
 }
